@@ -34,6 +34,15 @@ def exp_one_error_no_write(line, raw, w):
     return None
 
 
+_listed = {}
+
+
+def LISTED(prop):
+    if prop not in _listed:
+        _listed[prop] = set(k.get('id') for k in core.load_known() if k['kind'] == 'known' and k.get('property') == prop)
+    return _listed[prop]
+
+
 def run_suite(ctx, name, worlds, env=None, known=None, use_model=True, chunk=400):
     """known: fn(world, problem) -> finding id or None (class predicate of a known finding)"""
     any_corr = False
@@ -54,6 +63,13 @@ def run_suite(ctx, name, worlds, env=None, known=None, use_model=True, chunk=400
                 continue
             w = p['world']
             kid = known(w, p) if known else None
+            # a class only suppresses a report when KNOWN_FINDINGS.txt lists it as `known` for this property
+            if kid and kid.startswith('SKIP:'):
+                # outside the property's own quantifier (e.g. the documented carriage-return limitation)
+                ctx.stats['dist'][kid] = ctx.stats['dist'].get(kid, 0) + 1
+                continue
+            if kid and kid not in LISTED(ctx.prop):
+                kid = None
             if kid:
                 ctx.known_hits[kid] = ctx.known_hits.get(kid, 0) + 1
                 continue
